@@ -273,7 +273,7 @@ PROPS = {
         "assumptions": ["loader is a function of the URL during one call", "documents are in normal form (reference objects carry only $ref)"],
     },
     "C04": {
-        "props": "theories/Props/C04.v", "gens": [("tables", "Codec/Gen_Tables.v")], "cluster": "expand", "gen": "expand", "ops": ["expand_spec"], "extra_oracles": ["C04ids", "C04spell", "C04ptr"],
+        "props": "theories/Props/C04.v", "gens": [("tables", "Codec/Gen_Tables.v")], "cluster": "expand", "gen": "expand", "ops": ["expand_spec"], "extra_oracles": ["C04ids", "C04spell", "C04ptr", "C04tail"],
         "n": {"quick": 120, "thorough": 1500}, "oracle_n": {"quick": 150, "thorough": 3000},
         "rule": 'correspondence: ExpandSpec on generated multi-document reference graphs (1-5 documents in the same/sub/parent directories and an http host; local, sibling, ./ ../, root-relative and absolute refs; nested-pointer and whole-document targets; escaped names; refs at every sub-schema keyword; parameters/responses/path items by $ref; cycles of every small topology; fault injection; all option combinations) + a bounded-exhaustive sample of graphs over <=3 definitions x <=2 documents; oracle: every entry point x the four SkipSchemas/ContinueOnError combinations returns within a time limit without panic, in a killable worker for graphs with ids; non-trivial: all',
         "trusted_base": COMMON_TB + ["Expand/Expand.v: hand model of expander.go / schema_loader.go / resolver.go on JSON trees (base-path threading, parent stack, memo of circular refs, resolver roots, deref chains, rebasing, SkipSchemas/ContinueOnError/AbsoluteCircularRef, cache and loader log); abstractions: sub-schemas visited in JSON member order, `#/` refs into the live root read the original root (outputs on cyclic graphs compared through unfoldings)",
